@@ -206,7 +206,7 @@ func VerifC11TwoWriters() {
 		}
 		putErrA = c.PutBytes(id, dA)
 		fsys.BeforeOp = nil
-	}, rt.Param("OBS", 1) != 0)
+	}, rt.Param("OBS", 1) != 0 && rt.Param("TORN", 1) != 0)
 	fsys.CrashAt = -1
 	if putErrA != nil {
 		// A may legitimately fail when B's different content gets in its way
